@@ -840,6 +840,9 @@ class Auditor:
         self.runs += 1
         return self.sess.ask("audit " + path)
 
+    def recs(self, path, dbid):
+        return self.sess.ask("recs %s %d" % (path, dbid))
+
     def struct(self, path, dbid):
         """node fields of one database as the independent reader (KV/Audit.v + KV/Codec.v) decodes them"""
         return self.sess.ask("struct %s %d" % (path, dbid))
@@ -916,6 +919,14 @@ def execute(impl, lines, modes, env=None, auditor=None):
                     if strip(out) != strip(mine):
                         orc.bad.append((i, "the independent reader decodes the nodes of the database differently from the implementation's own "
                                            "reader: implementation `%s` reader `%s`" % (out[:150], mine[:150])))
+                    # ... and every record: stored key, value length and value bytes (hash) of every slot of every node, as
+                    # _kvblk_key_peek / _kvblk_value_peek return them, against the model reader of the read-back theorem (C03)
+                    his = sess.ask("recs %d" % slot)
+                    mine = auditor.recs(cur_path, dbids[slot]) or ""
+                    if his is not None and his.startswith("OK") and his != mine:
+                        orc.bad.append((i, "the model reader (KV/Records.v) decodes the records of the database differently from the "
+                                           "implementation's own readers: implementation `%s` reader `%s`" % (his[:150], mine[:150])))
+                    auditor.nrecs = getattr(auditor, "nrecs", 0) + 1
     rc, err = sess.close()
     return final, outs, orc, rc, err
 
@@ -1107,6 +1118,7 @@ def drive(run, profile, nscripts, nops, theorem_pid=None, asan=False, reopen=Fal
     finally:
         if auditor:
             run.cov["images_audited"] = auditor.runs
+            run.cov["record_dumps_compared"] = getattr(auditor, "nrecs", 0)
             auditor.close()
         shutil.rmtree(work, ignore_errors=True)
 
